@@ -155,6 +155,11 @@ class Patch(dict[str, Any]):
             case None:
                 dicts.remove(cast(dict[Any, Any], body), path)
             case collections.abc.Mapping():
+                # As per RFC 7386, a non-mapping target is replaced by a mapping before merging.
+                absent = object()
+                target = dicts.resolve(cast(dict[Any, Any], body), path, absent)
+                if path and target is not absent and not isinstance(target, collections.abc.Mapping):
+                    dicts.ensure(cast(dict[Any, Any], body), path, {})
                 for key, val in value.items():
                     self._apply_patch(body, path + (key,), val)
             case _:
